@@ -393,7 +393,7 @@ func (r *runner) monitor() {
 			}
 		}
 		d := peering.VerifNextDelay(h)
-		if d <= 0 || d > peering.VerifMaxBackoff {
+		if d <= 0 || d > 10*time.Minute { // the property's own bound, not the code's constant
 			r.o.Fail("backoff-range", "handler h%d nextDelay=%d outside (0, 10min]", i, int64(d))
 		}
 		t := peering.VerifTimer(h)
@@ -645,7 +645,7 @@ func exec(c vh.Case, o *vh.Out) {
 		case "backoff":
 			d, _ := strconv.ParseInt(f[1], 10, 64)
 			got := int64(peering.VerifBackoff(time.Duration(d)))
-			max := int64(peering.VerifMaxBackoff)
+			max := int64(10 * time.Minute)
 			// the property's own statement of the arithmetic: grow by 1.5x plus a draw below the current value,
 			// capped into (90%, 100%] of the maximum
 			okGrow := d < max && got >= d+d/2 && got < d+d/2+d && got <= max
